@@ -60,3 +60,32 @@ Example small_block_rejected : compress C_ident 2 3 data21 = Raise ValueError.
 Proof. vm_compute. reflexivity. Qed.
 Example be32_example : be32_encode 258 = [x00; x00; x01; x02] /\ be32_decode [x00; x00; x01; x02] = 258.
 Proof. vm_compute. split; reflexivity. Qed.
+
+(* remaining hypotheses: fuel_sufficient, parse_frame, compress_rejects_small_block, output_within_buffer *)
+Example fuel_hyp : wf (mkSt 5 2 (Some [x01; x02]) [] [x09]) /\ (length [x03; x04; x05; x00] < 9)%nat.
+Proof. split; [apply wf_mid_frame|cbn; lia]. Qed.
+Example fuel_example :
+  let D := fun f : list byte => Ok f in
+  let s := mkSt 5 2 (Some [x01; x02]) [] [x09] in
+  feed_fuel D 100 9 s [x03; x04; x05; x00] = feed D 100 s [x03; x04; x05; x00] /\
+  option_map (fun s' => (zs_of (s_out s'), zs_of (s_partial s'))) (match feed D 100 s [x03; x04; x05; x00] with Ok s' => Some s' | _ => None end)
+  = Some ([9; 1; 2; 3; 4; 5], [0]).
+Proof. vm_compute. split; reflexivity. Qed.
+Example parse_frame_hyp : len (C_ident data21) < 4294967296.
+Proof. vm_compute. reflexivity. Qed.
+Example rejects_hyp : 0 <= 2 < 3.
+Proof. lia. Qed.
+Example within_buffer_hyp : 0 <= 21 /\ exists s, decompress D_ident 21 [concat blocks21] = Ok s.
+Proof. split; [lia|]. eexists. vm_compute. reflexivity. Qed.
+(* a chunk that ends inside a prefix, then inside a frame: intermediate reader states *)
+Example states_example :
+  let s := concat blocks21 in
+  match feed D_ident 21 s_init (firstn 2 s) with
+  | Ok s1 => (s_size s1, zs_of (s_partial s1)) = (0, [0; 0]) /\
+             match feed D_ident 21 s1 (firstn 5 (skipn 2 s)) with
+             | Ok s2 => (s_size s2, s_pos s2, option_map zs_of (s_buf s2), s_partial s2) = (19, 3, Some [86; 66; 76], [])
+             | _ => False
+             end
+  | _ => False
+  end.
+Proof. vm_compute. split; reflexivity. Qed.
